@@ -10,7 +10,7 @@
 From Coq Require Import List NArith Bool Sorting.Sorted.
 Import ListNotations.
 From ZV.Conc Require Import Sched MtModel MtProofs MtRing MtRingC MtRingT MtPool MtFrame MtSleep MtStep MtLive.
-From ZV.Conc Require Import MtErr MtErrC MtFlush MtFlushC MtGeo MtGeoC MtGeoW.
+From ZV.Conc Require Import MtErr MtErrC MtFlush MtFlushC MtGeo MtGeoC MtGeoW MtLdm MtLdmBug MtTermS MtTermR MtTermQ3 MtTerm MtTermAll.
 Local Open Scope N_scope.
 
 (* mt_serial_order (1): serial sections (LDM sequence generation + checksum update) are executed in strictly increasing
@@ -300,10 +300,12 @@ Print Assumptions mt_release_wait_has_runner.
 
 (* ---- mt_input_ranges_safe (hypothesis geo_ops: targetPrefixSize <= targetSectionSize, as ZSTDMT_initCStream_internal makes it) ---- *)
 
-(* the geometry invariant of the round buffer (MtGeo.GInv) holds in every reachable state *)
+(* the geometry invariant of the round buffer and of the LDM window (MtGeo.GInv: capacity, live jobs behind the frontier, the frontier has
+   not lapped an unfinished job, consecutive sources follow each other, the LDM window holds at most windowSize bytes and ends where the job
+   of the next serial turn continues) and MtGeo.SrOk (ldmWindow = ldmState.window, serial.nextJobID <= nextJobID) hold in every reachable state *)
 Theorem mt_buffer_geometry_invariant : forall cfg ops sched,
   0 < c_chunk cfg -> ops_ok ops -> geo_ops ops ->
-  let s := run state (step cfg) sched (init cfg ops) in TInv cfg s /\ GInv cfg s.
+  let s := run state (step cfg) sched (init cfg ops) in TInv cfg s /\ SrOk s /\ GInv cfg s.
 Proof. exact ginv_reachable. Qed.
 Print Assumptions mt_buffer_geometry_invariant.
 
@@ -321,6 +323,17 @@ Theorem mt_input_ranges_safe : forall cfg ops sched,
 Proof. exact input_ranges_safe. Qed.
 Print Assumptions mt_input_ranges_safe.
 
+(* ... nor the LDM window: ldmWindow (what ZSTDMT_waitForLdmComplete tests) always equals ldmState.window (what the next serial section
+   searches), and while the application thread holds an input buffer the buffer overlaps neither part of it *)
+Theorem mt_input_range_outside_ldm_window : forall cfg ops sched,
+  0 < c_chunk cfg -> ops_ok ops -> geo_ops ops ->
+  let s := run state (step cfg) sched (init cfg ops) in
+  s_lw (sr s) = s_w (sr s) /\
+  (alldone (mt s) = false -> relphase (awake (c_pc (cl s))) = false -> ldm (mt s) = true -> ihas (mt s) = true ->
+   overlap_win (istart (mt s), target (mt s)) (s_w (sr s)) = false).
+Proof. exact ldm_window_safe. Qed.
+Print Assumptions mt_input_range_outside_ldm_window.
+
 (* the prefix move at the wrap and everything else written in the current lap of the round buffer: an unfinished job in flight from an
    EARLIER lap is exactly one lap old and lies (prefix included) at or above roundBuff.pos, so nothing in [0, roundBuff.pos) - in
    particular the moved prefix [0, prefix.size) - overlaps it; an unfinished job of the current lap ends at or below roundBuff.pos *)
@@ -336,3 +349,72 @@ Theorem mt_prefix_move_safe : forall cfg ops sched,
      forall a n, a + n <= rpos (mt s) -> overlap (a, n) (j_src j, j_size j) = false /\ overlap (a, n) (j_pstart j, j_psize j) = false).
 Proof. exact older_laps_above_frontier. Qed.
 Print Assumptions mt_prefix_move_safe.
+
+(* ---- termination under fairness (mt_terminates_fair) ---- *)
+(* [state_from cfg s0 sigma n] = the state after the first n picks of the infinite schedule sigma from s0; [fair cfg sigma] = every thread
+   0..nbWorkers is picked again and again (disabled picks are skipped). *)
+
+(* under every fair schedule the application thread leaves ZSTDMT_waitForAllJobsCompleted / ZSTDMT_releaseAllJobResources (entered after a
+   worker error or from ZSTDMT_initCStream_internal): no hypothesis on LDM, payloads or the number of workers *)
+Theorem mt_release_terminates : forall cfg ops sched0 sigma,
+  0 < c_chunk cfg -> ops_ok ops -> fair cfg sigma ->
+  let s0 := run state (step cfg) sched0 (init cfg ops) in
+  inrel s0 = true -> exists n, inrel (state_from cfg s0 sigma n) = false.
+Proof. exact release_terminates. Qed.
+Print Assumptions mt_release_terminates.
+
+(* every fair schedule finishes every finite call program.  Hypotheses, each needed (the model livelocks without it): at least one pool
+   thread; RSYNC_MIN_BLOCK_SIZE > 0; no job that completes without error is empty in any reachable state ([nonempty_jobs]: real zstd emits
+   at least a block header; an empty completed job can never be flushed); no deadlock (discharged below for programs without LDM) *)
+Theorem mt_terminates_fair : forall cfg ops sigma,
+  0 < c_chunk cfg -> ops_ok ops ->
+  0 < c_minblk cfg -> (1 <= c_nbw cfg)%nat -> nonempty_jobs cfg ops ->
+  (forall sched, stuck cfg (run state (step cfg) sched (init cfg ops)) = false) ->
+  fair cfg sigma ->
+  exists n, caller_done (state_at cfg ops sigma n) = true.
+Proof. exact fair_terminates. Qed.
+Print Assumptions mt_terminates_fair.
+
+Theorem mt_terminates_fair_noldm : forall cfg ops sigma,
+  0 < c_chunk cfg -> ops_ok ops -> noldm_ops ops ->
+  0 < c_minblk cfg -> (1 <= c_nbw cfg)%nat -> nonempty_jobs cfg ops ->
+  fair cfg sigma ->
+  exists n, caller_done (state_at cfg ops sigma n) = true.
+Proof. exact fair_terminates_noldm. Qed.
+Print Assumptions mt_terminates_fair_noldm.
+
+(* the fairness hypothesis is satisfiable: round robin *)
+Theorem mt_terminates_round_robin : forall cfg ops,
+  0 < c_chunk cfg -> ops_ok ops -> noldm_ops ops ->
+  0 < c_minblk cfg -> (1 <= c_nbw cfg)%nat -> nonempty_jobs cfg ops ->
+  exists n, caller_done (state_at cfg ops (fun i : nat => (Nat.modulo i (S (c_nbw cfg)), 0%nat)) n) = true.
+Proof. exact round_robin_terminates. Qed.
+Print Assumptions mt_terminates_round_robin.
+
+(* ---- mt_deadlock_free, complete ---- *)
+
+(* in every reachable state, under every schedule, for every call program (long-distance matching included) and every payload oracle
+   (worker-side failures included): either the application has finished its call program or some thread can take a step.
+   Hypotheses: chunk size > 0, targetSectionSize > 0, targetPrefixSize <= targetSectionSize. *)
+Theorem mt_deadlock_free_all : forall cfg ops sched,
+  0 < c_chunk cfg -> ops_ok ops -> geo_ops ops -> stuck cfg (run state (step cfg) sched (init cfg ops)) = false.
+Proof. exact deadlock_free_all. Qed.
+Print Assumptions mt_deadlock_free_all.
+
+(* the protocol BEFORE fix e0108a3 (ZSTDMT_serialState_update advancing serial.nextJobID on a skipped turn; ZSTDMT_serialState_ensureFinished
+   not clearing ldmState.window) is refuted: a concrete configuration, call program, payload oracle (one failing job) and schedule of 67
+   critical sections after which every thread of the old model is asleep (checked by vm_compute; findings C11-ldm-wait-after-worker-error,
+   C11-serial-turn-skipped-after-error) *)
+Theorem mt_old_protocol_refuted :
+  exists cfg ops sched, 0 < c_chunk cfg /\ ops_ok ops /\ geo_ops ops /\ stuck_old cfg (run state (step_old cfg) sched (init cfg ops)) = true.
+Proof. exact old_protocol_refuted. Qed.
+Print Assumptions mt_old_protocol_refuted.
+
+(* termination under fairness for every call program: the deadlock hypothesis of mt_terminates_fair discharged by mt_deadlock_free_all *)
+Theorem mt_terminates_fair_all : forall cfg ops sigma,
+  0 < c_chunk cfg -> ops_ok ops -> geo_ops ops ->
+  0 < c_minblk cfg -> (1 <= c_nbw cfg)%nat -> nonempty_jobs cfg ops ->
+  fair cfg sigma ->
+  exists n, caller_done (state_at cfg ops sigma n) = true.
+Proof. exact fair_terminates_all. Qed.
+Print Assumptions mt_terminates_fair_all.
